@@ -53,6 +53,28 @@ FUNC_PROPS = {
 ALL = tuple(f'C{i:02d}' for i in range(1, 20))
 
 
+# helper functions inherit the properties of the mapped functions that (transitively) call them:
+# filled from the resolved call graph by derive() when the analysis context is created
+DERIVED: dict = {}
+
+
+def derive(prog, analyzer) -> None:
+    """a helper without an explicit entry also belongs to every property whose mapped functions reach it
+    through resolved calls (the behaviour of those functions depends on it)."""
+    DERIVED.clear()
+    for short, props in FUNC_PROPS.items():
+        if not prog.has_func(short):
+            continue
+        root = prog.func(short)
+        for g in analyzer.reachable([root]).values():
+            if g is root or g.short in FUNC_PROPS:
+                continue
+            cur = DERIVED.setdefault(g.short, [])
+            for p in props:
+                if p not in cur:
+                    cur.append(p)
+
+
 def props_for(func_short: str, relpath: str) -> tuple:
     if func_short in FUNC_PROPS:
         return FUNC_PROPS[func_short]
@@ -60,4 +82,6 @@ def props_for(func_short: str, relpath: str) -> tuple:
     # nested function: use the outermost function's mapping
     if top in FUNC_PROPS:
         return FUNC_PROPS[top]
-    return MODULE_DEFAULT.get(relpath, ())
+    base = MODULE_DEFAULT.get(relpath, ())
+    extra = DERIVED.get(func_short) or DERIVED.get(top) or ()
+    return tuple(dict.fromkeys(tuple(base) + tuple(extra)))
